@@ -44,7 +44,7 @@ fn random_field(rng: &mut Rng, depth: u32, used: &mut Vec<(u8, u32)>, der: bool)
                Field { enc: Dyn::Null(c, n), dec: Prog::Take { opt: false, kind: 1, exp: Some(tag), body: Body::Typed(11) }, log, tag } }
         3 => { let k = rng.below(6) as usize; let mut o = rng.bytes(k + 1); let l = o.len(); o[l - 1] &= 0x7f; log_tag(&mut log, c, n, false); log_bytes(&mut log, &o);
                Field { enc: Dyn::Prim(c, n, o), dec: Prog::Take { opt: false, kind: 1, exp: Some(tag), body: Body::Typed(12) }, log, tag } }
-        4 => { let k = *rng.pick(&[0usize, 1, 2, 5, 127, 128, 200]); let b = rng.bytes(k); let u = if k == 0 { 0 } else { rng.below(8) as u8 };
+        4 => { let k = *rng.pick(&[0usize, 1, 2, 5, 127, 128, 200, 998, 999]); let b = rng.bytes(k); let u = if k == 0 { 0 } else { rng.below(8) as u8 };
                log_tag(&mut log, c, n, false); log.push(u as i128); log_bytes(&mut log, &b);
                Field { enc: Dyn::Bits(c, n, u, b), dec: Prog::Take { opt: false, kind: 0, exp: Some(tag), body: Body::Typed(14) }, log, tag } }
         5 => { let k = *rng.pick(&[0usize, 1, 3, 127, 128, 255, 256, 300]); let b = rng.bytes(k); log_tag(&mut log, c, n, false); log.push(0); log_bytes(&mut log, &b);
